@@ -40,7 +40,7 @@ def trim_to_length(values, npts, surf2depth_travel_times, dt, trim=False, start=
         if sis[i] < 0:
             outs[i] = values[i, -sis[i]: npts - sis[i]]
         else:
-            outs[i, sis[i]:] = values[i, : npts - sis[i]]  # zero padded
+            outs[i, sis[i]:] = values[i, : max(npts - sis[i], 0)]  # zero padded
     return outs
 
 
